@@ -129,9 +129,11 @@ class ForcePlatformData(Sized, BuildWriteable):
     def __eq__(self, __value: object) -> bool:
         return (
             isinstance(__value, ForcePlatformData)
-            and np.allclose(self.application_point, __value.application_point)
-            and np.allclose(self.force, __value.force)
-            and np.allclose(self.torque, __value.torque)
+            and np.allclose(
+                self.application_point, __value.application_point, equal_nan=True
+            )
+            and np.allclose(self.force, __value.force, equal_nan=True)
+            and np.allclose(self.torque, __value.torque, equal_nan=True)
         )
 
 
